@@ -22,6 +22,8 @@
 (*       (cells), cen, csum (3 keys each), clo, chi, holes (IsHole flags),  *)
 (*       chain (number of loops, each nested in the previous one)          *)
 (* cen   cen, clo, chi: loop centroid against the sum over its cells       *)
+(* cadd  centroid of a triangle with an edge close to 180 degrees against  *)
+(*       the sum over its subdivision at the edge's exact midpoint         *)
 (* tri3  TurnAngle / Angle / PointArea / GirardArea / SignedArea /         *)
 (*       TrueCentroid of one triangle and of its permutations              *)
 (* sliv  area, small, big (keys of eps and 4*pi - eps), cnt, m (probes     *)
@@ -105,6 +107,16 @@ SlivRej(e) ==
     \cup If(4 * e.cnt >= 3 * e.m /\ e.norm, "sliver-normalized-vs-containment")
     \cup If(4 * e.cnt > e.m /\ 4 * e.cnt < 3 * e.m, "sliver-contains-half")
 
+\* additivity of the centroid over a subdivision with short edges: whole = TrueCentroid(p,a,b),
+\* loop3 / loop4 / poly = Centroid of the loops [p,a,b], [p,a,m,b] and of the polygon [p,a,b];
+\* lo/hi = TrueCentroid(p,a,m) + TrueCentroid(p,m,b) -/+ tolerance
+In3(v, lo, hi) == \A c \in 1..3 : Within(v[c], lo[c], hi[c])
+CaddRej(e) ==
+    If(~In3(e.whole, e.lo, e.hi), "centroid-additivity")
+    \cup If(~In3(e.loop3, e.lo, e.hi), "loop-centroid-additivity")
+    \cup If(~In3(e.loop4, e.lo, e.hi), "loop-centroid-additivity")
+    \cup If(~In3(e.poly, e.lo, e.hi), "polygon-centroid-additivity")
+
 Rej(n) ==
     LET e == Trace[n]
     IN  CASE e.ev = "turn" -> TurnRej(e)
@@ -113,6 +125,7 @@ Rej(n) ==
           [] e.ev = "poly" -> PolyRej(e)
           [] e.ev = "sliv" -> SlivRej(e)
           [] e.ev = "cen" -> CenRej(e)
+          [] e.ev = "cadd" -> CaddRej(e)
           [] e.ev = "tri3" -> Tri3Rej(e)
           [] OTHER -> {}
 
